@@ -16,9 +16,16 @@ real server by go/harness/c04):
 
 What is proved instead: `_witness` theorems (concrete short request sequences on which the model — and
 the real server — violates each clause) and `_partial` theorems under explicit decidable carve-outs:
-`CleanReq` (no empty / `_`-prefixed column name, every column as long as `time`) for the no-panic
-clause; "one record, no FlushAll" for the rejected-stores-nothing clause; "not `_`-prefixed, not empty" for
-the names clause.
+`CleanReq` (every column of a batch as long as its `time` column — NO restriction on names any more) for
+the no-panic clause; "one record, no FlushAll" for the rejected-stores-nothing clause; "not `_`-prefixed,
+not empty" for the names clause.
+
+History. Two panics of the first round were repaired in /repo and the model follows the regenerated
+facts: 1d10738 (a column named "" is rejected by both write paths, `name[0]` is guarded — the former
+witness C04_full_witness_empty_name is now the theorem C04_empty_name_rejected) and d29da22
+(mergeBatches returns an error instead of failing a type assertion — the former witnesses
+C04_full_witness_underscore_type_change / _request_goroutine are now
+C04_names_witness_underscore_conflict_rows_lost: no panic, but the acknowledged rows are lost).
 -/
 namespace Arc.C04
 open Arc.Generated.C04
@@ -28,8 +35,8 @@ open Arc.Generated.C04
 /-- The guards (or their absence) the model and the witnesses rest on, as extracted from the CURRENT
 source. A repair flips a fact and this theorem (and the witnesses) must be restated. -/
 theorem C04_facts_tied :
-    sigSkipsEmpty = true ∧ sigSkipsUnderscore = true ∧ schemaGuardsEmpty = false ∧
-    schemaSkipsUnderscore = true ∧ mergeUncheckedAsserts > 0 ∧ mergeRecovers = false ∧
+    sigSkipsEmpty = true ∧ sigSkipsUnderscore = true ∧ schemaGuardsEmpty = true ∧
+    writeRejectsEmptyName = true ∧ schemaSkipsUnderscore = true ∧ mergeUncheckedAsserts = 0 ∧
     permBoundsChecked = false ∧ validPermBoundsChecked = false ∧ sliceBoundsChecked = true ∧
     rowTimeGuard = false ∧ flushGoroutinesRecover = false ∧ writeAtomic = false ∧
     handlerPanicsRecovered = true ∧ importRejectsEmptyName = true := by decide
@@ -90,28 +97,25 @@ def crashSite {α : Type} : Except Site α → Option Site
 
 /-! ## clause 1: no panic -/
 
-/-- an empty column name: accepted with 204, then the age timer's flush indexes `name[0]` -/
-theorem C04_full_witness_empty_name : crashSite (lifetime big [reqEmptyName]) = some .schemaName0 := by decide
+/-- an empty column name is now REJECTED: both write paths refuse the batch before the buffer is
+touched (handler answers 500), whatever the state -/
+theorem C04_empty_name_rejected (cfg : Cfg) (s : St) (db meas : Name) (b : Batch)
+    (h : b.cols.any (fun c => c.name.isEmpty) = true) : bufferBatch cfg s db meas b = .ok (.reject, s) := by
+  unfold bufferBatch
+  have hf : writeRejectsEmptyName = true := by decide
+  simp [hf, h]
 
-/-- a `_`-prefixed column changes type between two requests: the signature ignores it, both batches
-share a buffer, the size-triggered flush on a worker goroutine fails the type assertion -/
-theorem C04_full_witness_underscore_type_change :
-    crashSite (pipeline ⟨2, false⟩ [reqUnderscore .i64 t0, reqUnderscore .str (t0 + 1)]) = some .mergeTypeAssert := by decide
+example : (lifetime big [reqEmptyName]).toOption.map (fun o => (o.1.map (fun r => (r.status, r.added)), o.2.stored, o.2.lost))
+    = some ([(500, 0)], 0, 0) := by decide
 
 /-- a row-format field called `time` doubles the time column; one hour, unsorted ⇒ applyPermutation
 indexes the shorter columns out of range -/
 theorem C04_full_witness_time_field : crashSite (lifetime big [reqTimeField]) = some .permIndex := by decide
 
-/-- the same `_x` conflict met by a synchronous flush (schema change of the THIRD request): the panic is
-on the request goroutine, the middleware answers 500, the two acknowledged rows are gone -/
-theorem C04_full_witness_request_goroutine :
-    (pipeline big [reqUnderscore .i64 t0, reqUnderscore .str (t0 + 1), reqPlain mN wN .f64 (t0 + 2)]).toOption.map
-      (fun o => (o.1.map (fun r => (r.status, r.panic)), o.2.lost, o.2.buffered))
-    = some ([(204, none), (204, none), (500, some .mergeTypeAssert)], 2, 0) := by decide
-
-/-- C04_full under the carve-out: a server that only ever receives clean requests never panics —
-neither a handler nor a flush goroutine, whatever the interleaving of endpoints, measurements,
-signature changes (type changes of ordinary columns included), buffer size and WAL setting. -/
+/-- C04_full under the carve-out: a server that only ever receives requests whose batches have columns
+of one length never panics — neither a handler nor a flush goroutine — whatever the column NAMES (empty,
+`_`-prefixed, reserved), the interleaving of endpoints, measurements, signature and type changes, buffer
+size and WAL setting. -/
 theorem C04_partial (cfg : Cfg) (reqs : List Req) (h : ∀ r ∈ reqs, CleanReq r = true) :
     ∃ out, lifetime cfg reqs = .ok out ∧ ∀ resp ∈ out.1, resp.panic = none := by
   obtain ⟨resps, s, hp, hi, hn⟩ := pipelineFrom_ok cfg reqs (s := {}) (fun _ hh => absurd hh List.not_mem_nil) h
@@ -127,8 +131,8 @@ example : (∀ r ∈ [reqPlain mN vN .i64 t0, reqPlain mN vN .f64 (t0 + 1), reqP
     (lifetime big [reqPlain mN vN .i64 t0, reqPlain mN vN .f64 (t0 + 1), reqPlain nN vN .str t0, reqPlain mN vN .f64 (t0 + 2)]).toOption.map
       (fun o => (o.1.map (·.status), o.2.stored, o.2.lost)) = some ([204, 204, 204, 204], 4, 0) := by decide
 
-/-- the carve-out excludes exactly the witnesses' requests -/
-example : CleanReq reqEmptyName = false ∧ CleanReq (reqUnderscore .i64 t0) = false ∧ CleanReq reqTimeField = false := by
+/-- the carve-out now only excludes the ragged batch of the `time` field; unusual names are inside it -/
+example : CleanReq reqEmptyName = true ∧ CleanReq (reqUnderscore .i64 t0) = true ∧ CleanReq reqTimeField = false := by
   decide
 
 /-! ## clause 2: a rejected request stores no rows -/
@@ -213,6 +217,16 @@ example : (step big {} { ep := .msgpack, db := dbN, vmeas := [nN], recs := [.gen
     (fun o => (o.1.status, o.1.added, o.2.buffered)) = some (500, 0, 0) := by decide
 
 /-! ## clause 3: unusual names / type changes are stored correctly or rejected -/
+
+/-- a `_`-prefixed column changes type between two requests: the signature ignores it, both batches
+share a buffer, mergeBatches now returns an error — both requests were answered 204 and BOTH rows are
+lost (with the 3rd request of another signature the loss happens on the request path, still 204) -/
+theorem C04_names_witness_underscore_conflict_rows_lost :
+    (lifetime ⟨2, false⟩ [reqUnderscore .i64 t0, reqUnderscore .str (t0 + 1)]).toOption.map
+      (fun o => (o.1.map (fun r => (r.status, r.panic)), o.2.stored, o.2.lost)) = some ([(204, none), (204, none)], 0, 2) ∧
+    (lifetime big [reqUnderscore .i64 t0, reqUnderscore .str (t0 + 1), reqPlain mN wN .f64 (t0 + 2)]).toOption.map
+      (fun o => (o.1.map (fun r => (r.status, r.panic)), o.2.stored, o.2.lost))
+      = some ([(204, none), (204, none), (204, none)], 1, 2) := by decide
 
 /-- a `_`-prefixed column is accepted (204), never causes an error, and is NOT in the stored file -/
 theorem C04_names_witness_underscore_dropped :
